@@ -7,6 +7,7 @@ import DesyncModel.Tables.Sync
 import DesyncModel.FactDrop
 import DesyncModel.Lemmas
 import DesyncModel.Setters
+import DesyncModel.Inv.ErasedReach
 
 namespace Desync.C14
 open Desync Gen
@@ -43,5 +44,33 @@ theorem bg_owner_waits (s s' : State) (a q j : Nat) (act : Act) (o : Obs)
   simp only [ha, hc, hpc, hnr, Option.isSome_none, Bool.false_eq_true, ↓reduceIte] at hstep
   obtain ⟨rfl, _⟩ := Prod.mk.inj (Option.some.inj hstep)
   exact ⟨{ act with pc := .sbClaim q j }, acts_goto_self _ ha, rfl⟩
+
+/-- **The protocol statement of C14 holds in the model**: in every reachable state a lifetime-erased job that has not
+been dropped has a live owner frame — the activity of the `sync` call that created it exists, has not returned and has
+not finished; its program counter is inside the wait loop of sync_drain / sync_background, waiting for this very job
+(`erased_job_owner_waits`; the invariant `ErasedInvF` — an erased job that is not done is awaited by its owner, the ready
+flag is set only when the job is done, a call creates at most one erased job — is inductive over all 101 program
+counters and every environment step). -/
+theorem erased_job_inside_call : erased_job_inside_call_full := by
+  intro s hr j b owner body hb hk hnd
+  have hw := erased_job_owner_waits hr hb hk hnd
+  cases ha : s.acts[owner]? with
+  | none => simp [State.pcAt, ha, Pc.awaited] at hw
+  | some v =>
+    refine ⟨v, rfl, ?_, ?_⟩
+    · intro e; simp [State.pcAt, ha, e, Pc.awaited] at hw
+    · intro e; simp [State.pcAt, ha, e, Pc.awaited] at hw
+
+/-- the value of a Desync is freed by a job ordered after every job accepted before the drop, and while it runs no other
+operation on the object is open (C05's `free_waits_for_earlier_work`, `free_is_exclusive`): the `DataRef` pointer of every
+earlier operation is dead by then -/
+theorem data_pointer_protocol {s : State} (hr : Reachable s) {jf j : Nat} {bf b : Job}
+    (hf : s.jobs[jf]? = some bf) (hj : s.jobs[j]? = some b) (hq : b.q = bf.q) (hlt : j < jf) (hbeg : bf.begun = true) : b.ended = true :=
+  inOrder_reachable hr j jf b bf hj hf hq hlt hbeg
+
+/-- non-vacuity: a reachable state with an erased job that is not done (a `sync` call on a busy queue) -/
+example : ∃ s, Reachable s ∧ ∃ (j : Nat) (b : Job) (o : Nat) (body : Body), s.jobs[j]? = some b ∧ b.kind = .erasedBg o body ∧ b.ph ≠ .done := by
+  refine ⟨_, Reachable.step (.act 1) (Reachable.step (.act 1) (Reachable.step (.act 1) (Reachable.step (.invoke 2 none (.sync 0)) (Reachable.step (.act 0) (Reachable.step (.invoke 1 none (.sync 0)) (Reachable.init 1 0 1) rfl) rfl) rfl) rfl) rfl) rfl, 1, _, 1, _, rfl, rfl, ?_⟩
+  decide
 
 end Desync.C14
